@@ -83,12 +83,12 @@ pub struct TyEntry {
     pub dec: Decoder,
 }
 
-fn cp(g: &str, n: usize) -> String { format!("({g}_{g}_S_[{n}:S])", g = g, n = n) }
-fn sig() -> String { "!s:(A_A)".to_string() }
-fn pk(n: usize) -> String { format!("!n:(A_[{n}:A]_B_B_[{n}:B])", n = n) }
+pub fn cp(g: &str, n: usize) -> String { format!("({g}_{g}_S_[{n}:S])", g = g, n = n) }
+pub fn sig() -> String { "!s:(A_A)".to_string() }
+pub fn pk(n: usize) -> String { format!("!n:(A_[{n}:A]_B_B_[{n}:B])", n = n) }
 fn sk(n: usize) -> String { format!("!k:(S_[{n}:S]_A)", n = n) }
-fn sp(n: usize) -> String { format!("({}_{})", sig(), cp("B", n)) }
-fn rc() -> String { format!("<9:{}>", sp(1)) }
+pub fn sp(n: usize) -> String { format!("({}_{})", sig(), cp("B", n)) }
+pub fn rc() -> String { format!("<9:{}>", sp(1)) }
 fn rp() -> String { format!("(<128:{}>_{})", sig(), pk(1)) }
 fn bal() -> String { "!l:u".to_string() }
 fn revpair() -> String { "!p:(S_(S_b))".to_string() }
@@ -171,6 +171,29 @@ pub fn classify96(c: &[u8]) -> char {
     match Option::<G2Affine>::from(G2Affine::from_compressed(&a)) {
         None => 'i',
         Some(p) => if bool::from(p.is_identity()) { 'd' } else { 'v' },
+    }
+}
+
+/// Every group-element atom of an honest encoding replaced, one at a time, by a curve point outside the
+/// prime-order subgroup and by an x-coordinate off the curve: the value must not decode.  (Such a point has no
+/// discrete logarithm; verification equations can hold for it by accident of the challenge — a small-order
+/// component vanishes when the challenge is a multiple of its order, or in the pairing's final exponentiation.)
+pub fn bad_point_decode_probe<T: DeserializeOwned>(ctx: &mut Ctx, what: &str, expr: &str, honest: &[u8]) {
+    let bad = crate::props::c15::bad_points();
+    let atoms = match layout(expr, honest) { Some(a) => a, None => { ctx.broken(&format!("cannot lay out {} as {}", what, expr)); return; } };
+    for (i, (o, l, k)) in atoms.iter().enumerate() {
+        let alts: Vec<(&str, &Vec<u8>)> = match k { 'A' => vec![("outside-the-subgroup", &bad.g1_nosubgroup), ("off-the-curve", &bad.g1_offcurve)], 'B' => vec![("outside-the-subgroup", &bad.g2_nosubgroup), ("off-the-curve", &bad.g2_offcurve)], _ => continue };
+        for (kind, pt) in alts {
+            let mut b = honest.to_vec();
+            b[*o..*o + *l].copy_from_slice(pt);
+            ctx.evals += 1;
+            let ok = bincode::deserialize::<T>(&b).is_ok();
+            ctx.count(&format!("bad-point-decode:{}:{}:{}", what, kind, if ok { "ACCEPTED" } else { "refused" }));
+            if ok {
+                ctx.violation(&format!("a {} whose element #{} is a point {} decodes", what, i, kind),
+                    serde_json::json!({"class": format!("{}-with-point-{}-decodes", what, kind), "atom": i, "bytes": hex::encode(&b)}));
+            }
+        }
     }
 }
 
